@@ -248,14 +248,18 @@ def scenarios():
     S = {}
 
     def add(name, run, target, outputs=None, cost="cheap", pathtypes=("str", ),
-            needs_inputs=False, prepare=None, bystanders=()):
+            needs_inputs=False, prepare=None, bystanders=(), inits=None,
+            old_content=None):
         # bystanders: existing files with neighbouring names that are not
         # the output; they are there in every initial state and may never
         # change
         S[name] = {"run": run, "target": target, "cost": cost,
                    "outputs": outputs or (lambda t: [t]),
                    "pathtypes": pathtypes, "needs_inputs": needs_inputs,
-                   "prepare": prepare, "bystanders": tuple(bystanders)}
+                   "prepare": prepare, "bystanders": tuple(bystanders),
+                   # restricted set of initial states / what an "old" file
+                   # holds (default: the OLD marker bytes)
+                   "inits": inits, "old_content": old_content}
 
     add("writer:tum", _writer(lambda t, w: fi.write_tum_trajectory_file(
         t, _traj(), confirm_overwrite=w)), "out.tum",
@@ -339,6 +343,30 @@ def scenarios():
                                  "plotsy.png"))
     add("writer:serialize", _writer(lambda t, w: _figs().serialize(
         str(t), confirm_overwrite=w)), "plots.pickle", cost="plot")
+
+    # a collection that was loaded from a file and is serialized back onto
+    # that very file: an existing path like any other
+    def old_pickle():
+        import tempfile as _tf
+        d = _tf.mkdtemp(dir=os.getcwd(), prefix="c17ser_")
+        p = os.path.join(d, "seed.pickle")
+        _figs().serialize(p, confirm_overwrite=False)
+        sys.modules["matplotlib.pyplot"].close("all")
+        with open(p, "rb") as f:
+            return f.read()
+
+    def reserialize(t, w):
+        from evo.tools import plot
+        pc = plot.PlotCollection("loaded", deserialize=str(t))
+        # (one more figure, so that the new content differs from the old)
+        import matplotlib.pyplot as plt
+        fig = plt.figure()
+        fig.gca().plot([0, 1], [1, 0])
+        pc.add_figure("third", fig)
+        pc.serialize(str(t), confirm_overwrite=w)
+    add("writer:serialize-onto-its-source", _writer(reserialize),
+        "loaded.pickle", cost="plot", inits=("old", ),
+        old_content=old_pickle)
 
     for tool in ("ape", "rpe"):
         base = ["tum", "ref.txt", "est1.txt"]
@@ -527,9 +555,10 @@ def run_history(name, pathtype, initial, history, wd=None):
     target_rel = S["target"]
     outputs = S["outputs"](target_rel)
     if initial == "old":
+        old_bytes = S["old_content"]() if S.get("old_content") else OLD
         for o in outputs:
             with open(os.path.join(wd, o), "wb") as f:
-                f.write(OLD)
+                f.write(old_bytes)
     elif initial == "old-first-only":
         with open(os.path.join(wd, outputs[0]), "wb") as f:
             f.write(OLD)
@@ -673,6 +702,8 @@ def cases_for(name, S, thorough):
     multi = len(S["outputs"](S["target"])) > 1
     inits = ["absent", "old", "empty", "old-long"] + (
         ["old-first-only"] if multi else [])
+    if S.get("inits"):
+        inits = ["absent"] + list(S["inits"])  # (inits[1:] are used below)
     for pt in S["pathtypes"]:
         if cheap:
             for init in inits:
@@ -691,6 +722,8 @@ def cases_for(name, S, thorough):
                 for a1 in answers:
                     cases.append((name, pt, init, [(a1, True)]))
                 cases.append((name, pt, init, [("n", False)]))
+            if S.get("inits"):
+                continue    # (the scenario needs an existing, valid file)
             cases.append((name, pt, "absent", [("n", True), ("n", True)]))
             cases.append((name, pt, "absent", [("y", True), ("y", True),
                                                ("", True)]))
